@@ -166,6 +166,12 @@ class ScanEnv:
                 return not a0.words
             if name == 'DigitString::is_ordinal':
                 return a0.ordinal
+            if name == 'DigitString::is_null':
+                return not [w for w in a0.words if w != 'zero']
+            if name == 'DigitString::len':
+                return len(digits_of(a0))
+            if name == 'DigitString::to_string':
+                return digits_of(a0)
             raise Unsupported('scanner uses DigitString::%s' % name.split('::')[-1])
         if isinstance(a0, Lang) and name.startswith('LangInterpreter::'):
             m = name.split('::')[1]
